@@ -59,7 +59,7 @@ async fn calibrate_spawns() -> BTreeSet<String> {
     b.listen_addr("127.0.0.1:0".parse().unwrap());
     let (_network, _events, mut driver) = b.verif_build_node(root.clone(), None, None).expect("verif_build_node");
     let key = RecordKey::new(&vec![0x5au8; 32]);
-    let value = try_serialize_record(&vec![1u8, 2, 3], RecordKind::Chunk).expect("serialize").to_vec();
+    let value = try_serialize_record(&vec![0x42u8; 96 * 1024], RecordKind::Chunk).expect("serialize").to_vec();
     let record = Record { key: key.clone(), value, publisher: None, expires: None };
     let mut known = BTreeSet::new();
     async fn pass(known: &mut BTreeSet<String>, site: &str) {
@@ -96,7 +96,7 @@ async fn calibrate_spawns() -> BTreeSet<String> {
     hooks::gates_uninstall();
     drop(driver);
     let _ = std::fs::remove_dir_all(&root);
-    assert!(known.len() >= 2, "spawn calibration found {known:?}");
+    // (an implementation that spawns no task for a write or a delete simply has fewer known sites)
     known
 }
 
